@@ -112,6 +112,8 @@ structure MState where
   now : Nat := 0                         -- virtual time (sum of the ticks)
   refreshAt : Nat := 30000               -- when the current 30 s refresh period ends
   dueFull : List (Nat × String) := []    -- peers that are due a full wantlist, and why (refresh expired / connection closed mid-send)
+  conns : List (Nat × List Nat) := []    -- per peer: the connections the swarm has reported established and not yet closed
+  newGets : List (Nat × Nat) := []       -- (query, cid) of the gets since the last poll
 
 def rm (l ks : List Nat) : List Nat := l.filter (· ∉ ks)
 def add (l ks : List Nat) : List Nat := l ++ ks.filter (· ∉ l)
@@ -214,7 +216,11 @@ def checkState (st : MState) (s : Snap) : List Viol :=
       else some ("C06", s!"the server's record of peer {p} lacks cid {k}, which the peer wants according to its wantlist messages")) ++
     (rec_.filterMap fun k => if k ∈ ks then none
       else some ("C07", s!"the server's record of peer {p} holds cid {k}, which the peer does not want according to its wantlist messages"))
-  v13 ++ v13b ++ v13c ++ v06a ++ v06b ++ v03 ++ v04 ++ vref
+  -- C15: the serving side keeps its record of a peer while any connection of the peer is established
+  let v15 := st.conns.filterMap fun (p, cs) =>
+    if cs.isEmpty || (lookup s.swl p).isSome then none
+    else some ("C15", s!"the server half has no record of peer {p} although its connection(s) {cs} are established: its wants were discarded with another connection, and further wantlists from it are ignored")
+  v13 ++ v13b ++ v13c ++ v06a ++ v06b ++ v03 ++ v04 ++ vref ++ v15
 
 def bump (l : List (Nat × Nat)) (q : Nat) : List (Nat × Nat) :=
   if l.any (·.1 == q) then l.map fun e => if e.1 == q then (e.1, e.2 + 1) else e else l ++ [(q, 1)]
@@ -259,7 +265,9 @@ def stepMon (st : MState) (op : String) (out : String) : MState × List Viol :=
           | some q =>
             let q := ((q.drop 2).toString.toNat?).getD 0
             let v := if q != st.issued then [("C03", s!"get returned id {q}, expected the fresh id {st.issued}")] else []
-            ({ st with issued := max st.issued (q + 1), qkey := (q, k.toNat?.getD 0) :: st.qkey }, v)
+            let fits := rest.getLast? == some "1"
+            ({ st with issued := max st.issued (q + 1), qkey := (q, k.toNat?.getD 0) :: st.qkey,
+                       newGets := if fits then st.newGets ++ [(q, k.toNat?.getD 0)] else st.newGets }, v)
           | none => (st, [("C03", "get returned no query id")])
         | ["cancel", q] =>
           let q := q.toNat?.getD 0
@@ -321,6 +329,8 @@ def stepMon (st : MState) (op : String) (out : String) : MState × List Viol :=
           let p := p.toNat?.getD 0
           let c := c.toNat?.getD 0
           let st := if (lookup st.refWl p).isSome then st else { st with refWl := st.refWl ++ [(p, [])] }
+          let st := { st with conns := if (lookup st.conns p).isSome then st.conns.map (fun e => if e.1 == p then (p, add e.2 [c]) else e)
+                                       else st.conns ++ [(p, [c])] }
           match lookup prev.peers p, lookup snap.peers p with
           | some a, some b =>
             let same := a.sending == b.sending && a.sendFull == b.sendFull && a.req == b.req && a.force == b.force && a.synced == b.synced
@@ -333,6 +343,8 @@ def stepMon (st : MState) (op : String) (out : String) : MState × List Viol :=
         | ["closed", p, _c, rem] =>
           let p := p.toNat?.getD 0
           let st := markClosedMidSend st prev snap p (_c.toNat?.getD 0)
+          let st := { st with conns := if rem == "0" then st.conns.filter (·.1 != p)
+                                       else st.conns.map (fun e => if e.1 == p then (p, rm e.2 [_c.toNat?.getD 0]) else e) }
           let st := if rem == "0" then { st with refWl := st.refWl.filter (·.1 != p), owed := st.owed.filter (·.1 != p) } else st
           if rem == "0" then
             (st, (if (lookup snap.swl p).isSome || snap.swt.any (fun kp => p ∈ kp.2) then [("C13", s!"server-side state about peer {p} kept after its last connection closed")] else []) ++
@@ -384,6 +396,12 @@ def stepMon (st : MState) (op : String) (out : String) : MState × List Viol :=
               | none =>
                 if ps.sendFull || !(ps.sending == "ready") then none
                 else some ("C05", s!"peer {p} is due a full wantlist ({why}); after a poll it is idle, nothing was sent and no full wantlist is pending")
+          -- C15: closing one of several connections leaves the peer served through the others — what was on its way
+          -- over the closed connection must not be forgotten
+          let vdue15 := vdue.filterMap fun (_, text) =>
+            if (text.splitOn "(connection ").length > 1 then
+              some ("C15", text ++ ": what was handed to the closed connection is lost and not repeated over the remaining one(s)")
+            else none
           let st := { st with dueFull := due0.filter fun (p, _) =>
             (lookup snap.peers p).isSome && !(sends.any fun e => e.p == p && e.full) &&
             !(vdue.any fun v => v.2.startsWith s!"peer {p} ") }
@@ -405,6 +423,14 @@ def stepMon (st : MState) (op : String) (out : String) : MState × List Viol :=
             (if ((lookup events q).getD 0) > 1 then [("C03", s!"more than one event for query {q}")] else []) ++
             (if q ≥ st.issued then [("C03", s!"event for query id {q} that was never issued")] else []) ++
             (if q ∈ st.clean then [("C03", s!"event for query {q} that was cancelled before its answer reached the node")] else [])
+          -- C03: a get consults the blockstore (a block that is present locally is answered from it): by the end of
+          -- the next poll a lookup for the CID has been started for every new query that is still unanswered
+          let vget := (st.newGets.map (·.2)).eraseDups.filterMap fun k =>
+            let waiting := st.newGets.filter fun (q, k') => k' == k && !(q ∈ st.cancelled) && !(evs.any (·.1 == q))
+            let started := (calls.filter (·.2 == k)).length
+            if waiting.length > started then
+              some ("C03", s!"{waiting.length} new get(s) for cid {k} (queries {waiting.map (·.1)}) but only {started} blockstore lookup(s) for it were started by the next poll: a block present in the local blockstore would not be answered from it")
+            else none
           -- C01 / C03: a response carries bytes that the client gate accepted for the query's own CID, or
           -- that the node's blockstore returned for it
           let vresp := evs.flatMap fun (q, d) =>
@@ -485,8 +511,8 @@ def stepMon (st : MState) (op : String) (out : String) : MState × List Viol :=
               some ("C06", s!"cid {k} was stored by the node's own fetch while peer {p} waited for it, yet after the next poll the peer still waits and nothing was sent")
             else none
           ({ st with events := events, calls := calls ++ st.calls, puts := puts ++ st.puts, ghosts := gs, refWl := refWl,
-                     owed := if snap.stasks == 0 then [] else owed, stored := [] },
-           v03 ++ v01 ++ vsend ++ vdup ++ v07 ++ v06 ++ vowed ++ vstored ++ vlive ++ vresp ++ vdue)
+                     owed := if snap.stasks == 0 then [] else owed, stored := [], newGets := [] },
+           v03 ++ v01 ++ vsend ++ vdup ++ v07 ++ v06 ++ vowed ++ vstored ++ vlive ++ vresp ++ vdue ++ vdue15 ++ vget)
         | _ => (st, [])
       let st := { st with prev := snap }
       (st, v ++ checkState st snap)
